@@ -305,17 +305,20 @@ pub fn run(tier: Tier) -> i32 {
             }
         }
     }
-    // 1b. small scope, complete: every RDH sequence of length <= 2 (3 thorough) over a 24-symbol alphabet
-    //     {link 0/1 (two FEE ids)} x {stop 0/1} x {6 trigger words covering every counted bit alone or in a mix}
+    // 1b. small scope, complete: every RDH sequence of length <= 2 (3 thorough) over a 48-symbol alphabet
+    //     {link 0/1} x {2 FEE ids} x {stop 0/1} x {6 trigger words covering every counted bit alone or in a mix}
     {
         let all_bits: u32 = TRIGGER_FIELDS.iter().fold(0, |a, (_, b)| a | (1u32 << b));
         let even: u32 = TRIGGER_FIELDS.iter().enumerate().filter(|(i, _)| i % 2 == 0).fold(0, |a, (_, (_, b))| a | (1u32 << b));
         let trig = [0u32, all_bits, even, all_bits & !even, 0b1000_0000_0011, 1 << 4 | 1 << 28];
-        let mut syms: Vec<(u8, u8, u32)> = Vec::new();
+        // FEE ids vary independently of the link: two FEE ids on one link and one FEE id on two links both occur
+        let mut syms: Vec<(u8, u16, u8, u32)> = Vec::new();
         for l in [0u8, 1] {
-            for st in [0u8, 1] {
-                for t in trig {
-                    syms.push((l, st, t));
+            for fee in [gen::fee_of_link(0), gen::fee_of_link(2)] {
+                for st in [0u8, 1] {
+                    for t in trig {
+                        syms.push((l, fee, st, t));
+                    }
                 }
             }
         }
@@ -329,8 +332,8 @@ pub fn run(tier: Tier) -> i32 {
                 .iter()
                 .enumerate()
                 .map(|(i, &k)| {
-                    let (l, st, t) = syms[k as usize];
-                    let mut p = gen::recognisable_framed(l, gen::fee_of_link(l * 2), [0usize, 16, 32][i % 3], 77 + i as u64);
+                    let (l, fee, st, t) = syms[k as usize];
+                    let mut p = gen::recognisable_framed(l, fee, [0usize, 16, 32][i % 3], 77 + i as u64);
                     p.rdh.stop_bit = st;
                     p.rdh.trigger_type = t;
                     p
@@ -371,7 +374,7 @@ pub fn run(tier: Tier) -> i32 {
     rep.cov("evaluations", json!(cases.len()));
     rep.cov("distinct_nontrivial", json!(nontrivial));
     rep.cov("exhaustive", json!(true));
-    rep.cov("rule", json!("streams {arbitrary headers over 3 interleaved links with 1/5/12(big payloads, total > 2^16)/100/101(/201) packets; every RDH sequence of length <= 2 (quick) / 3 (thorough) over 24 symbols {2 links} x {stop 0/1} x {6 trigger words: none, all 20 counted bits, the even / odd halves, HB+orbit+TF, PhT+gap2}, modes / filters / formats / sources rotating; 6 conforming witnesses; witnesses with 1/3/21 RDH sanity faults} x 9 modes (5 checks, 3 views, filtered writing) x filters (none, present link/FEE/stave, absent link) x {JSON, TOML} x {file, stdin}; statistics file fields and report rows vs the independent calculator. non-trivial = a filter is active or errors are expected"));
+    rep.cov("rule", json!("streams {arbitrary headers over 3 interleaved links with 1/5/12(big payloads, total > 2^16)/100/101(/201) packets; every RDH sequence of length <= 2 (quick) / 3 (thorough) over 48 symbols {2 links} x {2 FEE ids, independent of the link} x {stop 0/1} x {6 trigger words: none, all 20 counted bits, the even / odd halves, HB+orbit+TF, PhT+gap2}, modes / filters / formats / sources rotating; 6 conforming witnesses; witnesses with 1/3/21 RDH sanity faults} x 9 modes (5 checks, 3 views, filtered writing) x filters (none, present link/FEE/stave, absent link) x {JSON, TOML} x {file, stdin}; statistics file fields and report rows vs the independent calculator. non-trivial = a filter is active or errors are expected"));
     rep.sample(json!({"expected_fields": ["rdhs_seen", "rdhs_filtered", "payload_size", "links (sorted)", "fee_id (first seen)", "rdh_version", "data_format", "system_id", "run_trigger_type", "hbfs_seen", "layer_staves_seen", "trigger_stats.*", "total_errors", "unique_error_codes"]}));
     rep.assume("run trigger type: the raw value is compared, its textual description is not");
     rep.finish()
